@@ -13,30 +13,35 @@ package oidc
 // reading, "complete" clauses the latest one.
 
 //@ func oidc.CheckSubject
+//@   ensures foreign-err: !moderr(err)
 //@   requires valid(claims)
 //@   pure
 //@   ensures iff: err == nil <==> claims.GetSubject() != ""
 //@   ensures kind: err != nil ==> err == ErrSubjectMissing
 
 //@ func oidc.CheckIssuer
+//@   ensures foreign-err: !moderr(err)
 //@   requires valid(claims)
 //@   modifies nothing
 //@   ensures iff: err == nil <==> claims.GetIssuer() == issuer
 //@   ensures kind: err != nil ==> isErr(err, ErrIssuerInvalid)
 
 //@ func oidc.CheckAudience
+//@   ensures foreign-err: !moderr(err)
 //@   requires valid(claims)
 //@   modifies nothing
 //@   ensures iff: err == nil <==> contains(claims.GetAudience(), clientID)
 //@   ensures kind: err != nil ==> isErr(err, ErrAudience)
 
 //@ func oidc.CheckAuthorizedParty
+//@   ensures foreign-err: !moderr(err)
 //@   requires valid(claims)
 //@   modifies nothing
 //@   ensures iff: err == nil <==> (len(claims.GetAudience()) > 1 ==> claims.GetAuthorizedParty() != "")
 //@                              && (claims.GetAuthorizedParty() == "" || claims.GetAuthorizedParty() == clientID)
 
 //@ func oidc.CheckExpiration
+//@   ensures foreign-err: !moderr(err)
 //@   requires valid(claims)
 //@   modifies wallclock
 //@   ensures clock: old(wallclock) <= wallclock
@@ -45,6 +50,7 @@ package oidc
 //@   ensures kind: err != nil ==> err == ErrExpired
 
 //@ func oidc.CheckIssuedAt
+//@   ensures foreign-err: !moderr(err)
 //@   requires valid(claims)
 //@   modifies wallclock
 //@   ensures clock: old(wallclock) <= wallclock
@@ -58,11 +64,13 @@ package oidc
 //@   ensures kind: err != nil ==> err == ErrIatMissing || isErr(err, ErrIatInFuture) || isErr(err, ErrIatToOld)
 
 //@ func oidc.CheckNonce
+//@   ensures foreign-err: !moderr(err)
 //@   requires valid(claims)
 //@   modifies nothing
 //@   ensures iff: err == nil <==> claims.GetNonce() == nonce
 
 //@ func oidc.CheckAuthTime
+//@   ensures foreign-err: !moderr(err)
 //@   requires valid(claims)
 //@   modifies wallclock
 //@   ensures clock: old(wallclock) <= wallclock
@@ -81,6 +89,7 @@ package oidc
 //@ spec func sigChecked(token string, payload string, set KeySet, algs []string) bool
 
 //@ func oidc.ParseToken
+//@   ensures foreign-err: !moderr(err)
 //@   modifies target(claims)
 //@   ensures three-parts: err == nil ==> splitCount(tokenString, ".") == 3
 //@   ensures middle-part: err == nil ==> bstr(result0) == jwtPayload(tokenString)
@@ -88,6 +97,7 @@ package oidc
 //@   ensures fail-nil: splitCount(tokenString, ".") != 3 ==> err != nil && result0 == nil
 
 //@ func oidc.CheckSignature
+//@   ensures foreign-err: !moderr(err)
 //@   requires valid(claims) && valid(set)
 //@   modifies os(claims), os(set)
 //@   defines checked: err == nil ==> sigChecked(token, bstr(payload), set, supportedSigAlgs)
@@ -108,3 +118,12 @@ package oidc
 //@   modifies nothing
 //@   ensures value: err == nil ==> result0 == hashString(hashBitsOf(str(sigAlgorithm)), claim, true)
 //@   ensures known: err == nil <==> hashBitsOf(str(sigAlgorithm)) != 0
+
+// ---- errors (C03, C05, C09) ----
+
+// redirectDisabledErr(e): an *Error that must be shown to the user, never redirected.
+//@ func oidc.DefaultToServerError
+//@   modifies nothing
+//@   ensures non-nil: result != nil
+//@   ensures found: asErr("*Error", err) != nil ==> result == asErr("*Error", err)
+//@   ensures wrapped: asErr("*Error", err) == nil ==> fresh(result) && result.ErrorType == ServerError && result.Description == description && result.Parent == err && !result.redirectDisabled
